@@ -57,12 +57,16 @@ def run(ctx) -> None:
   ctx.rule('R2', 'scored features == stored features == fed-back features (after the padding mask)', 3)
   ctx.rule('R3', 'top-k merge keeps rewards and feature parts aligned; decoding through the converter', 3)
   ctx.rule('R4', 'all PRNG keys derive from the seed by split; no key is consumed twice', 6)
+  ctx.rule('R7', 'scores are reported as the score function returned them: untouched on the way into the best-results table, one key for all evaluations', 2)
+  ctx.rule('R6', 'eagle pool: a slot\'s features and reward are always replaced together (same index, same result)', 1)
   ctx.rule('R5', 'the scored prior points reach the best-results table (never worse than the best prior)', 1)
   r1_bounds(ctx)
   r2_versions(ctx)
   r3_topk(ctx)
   r4_keys(ctx)
   r5_prior(ctx)
+  r6_pool_pairing(ctx)
+  r7_scores_as_given(ctx)
 
 
 # ----------------------------------------------------------------------- R1
@@ -176,6 +180,137 @@ def r2_versions(ctx) -> None:
         okp = all(d.value is not None and 'dimension_is_missing' in unparse(d.value, 0) for d in ds if d.kind == 'assign') and bool(ds)
   ctx.check(okp, 'R2', 'prior features are masked before they are scored', call.node, 'prior_rewards = eval_score_fn(masked prior_features)',
             'prior features are scored before the padding mask (padding leaks into the prior rewards)', construct='prior-mask', func=call.qualname)
+
+
+# ----------------------------------------------------------------------- R7
+_LOSSY = {'nan_to_num', 'clip', 'where', 'round', 'around', 'rint', 'minimum', 'maximum', 'abs', 'astype', 'floor', 'ceil',
+          'nanmax', 'nanmin', 'sign', 'tanh', 'log', 'exp'}
+
+
+def r7_scores_as_given(ctx) -> None:
+  """The reward reported for a candidate is the value the score function returned for it: (a) the rewards merged into
+  the best-results table are the function's results untouched (no nan_to_num / clip / where on the way in); (b) every
+  evaluation of the score function in one optimiser call uses the same key, so prior, step and final (aux) scores of a
+  point agree."""
+  vb = ctx.index.module_of_file(VB)
+  opt = vb.classes.get('VectorizedOptimizer')
+  ub = opt.methods['_update_best_results']
+  call = opt.methods['__call__']
+  # (a) rewards entering the merge
+  g = cfgmod.CFG(ub.node)
+  rd = flow.ReachingDefs(g)
+  params = set(ub.params)
+  cats = [(n, c) for n in g.nodes for c in flow.node_calls(n) if (dotted(c.func) or '').endswith('concatenate') and c.args
+          and isinstance(c.args[0], ast.List) and any('reward' in unparse(e, 0) for e in c.args[0].elts)]
+  if not cats:
+    raise AnalysisError('_update_best_results: concatenation of the rewards not found')
+  for n, c in cats:
+    bad = None
+    for e in c.args[0].elts:
+      if isinstance(e, ast.Name):
+        for d in rd.at(n, e.id):
+          if d.kind == 'param':
+            continue
+          lossy = sorted({(dotted(x.func) or '').rsplit('.', 1)[-1] for x in ast.walk(d.value) if isinstance(x, ast.Call)} & _LOSSY) \
+              if d.value is not None else []
+          if lossy:
+            bad = (e.id, lossy, d.value)
+          elif d.value is not None and not isinstance(d.value, (ast.Name, ast.Attribute)):
+            raise AnalysisError(f'_update_best_results: `{e.id}` is redefined as `{unparse(d.value, 60)}` before the merge')
+      elif isinstance(e, ast.Call):
+        lossy = sorted({(dotted(x.func) or '').rsplit('.', 1)[-1] for x in ast.walk(e) if isinstance(x, ast.Call)} & _LOSSY)
+        if lossy:
+          bad = (unparse(e, 40), lossy, e)
+    ctx.check(bad is None, 'R7', 'rewards are merged as returned by the score function', c,
+              'batch rewards and incumbent rewards concatenated untouched',
+              (f'`{bad[0]}` passes through {bad[1]} before the merge (`{unparse(bad[2], 70)}`): scores such as +-inf are rewritten to other '
+               'numbers, so the reward reported for a candidate is not what the score function gives at that candidate') if bad else '',
+              construct='reward-rewritten', func=ub.qualname)
+  # (b) one key for every evaluation
+  seeds = set()
+  n_sites = 0
+  local_eval = {}
+  for x in ast.walk(call.node):
+    if isinstance(x, ast.Assign) and isinstance(x.value, ast.Lambda) and any(isinstance(t, ast.Name) for t in x.targets):
+      local_eval[x.targets[0].id] = x.value
+    if isinstance(x, ast.FunctionDef) and x is not call.node:
+      local_eval[x.name] = x
+  wrappers = {nm: f for nm, f in local_eval.items() if any(
+      isinstance(c, ast.Call) and isinstance(c.func, ast.Name) and c.func.id in ('score_fn', 'score_with_aux_fn') for c in ast.walk(f))}
+  problems = []
+  for c in ast.walk(call.node):
+    if not isinstance(c, ast.Call) or not isinstance(c.func, ast.Name):
+      continue
+    if c.func.id in ('score_fn', 'score_with_aux_fn'):
+      n_sites += 1
+      s_ = c.args[1] if len(c.args) > 1 else next((k.value for k in c.keywords if k.arg in ('seed', 'key', 'rng')), None)
+      seeds.add(unparse(s_, 0) if s_ is not None else '<none>')
+    elif c.func.id in wrappers:
+      w = wrappers[c.func.id]
+      wparams = [a.arg for a in w.args.args]
+      extra = list(c.args[1:]) + [k.value for k in c.keywords]
+      if extra:
+        problems.append(f'{c.func.id}(.., {unparse(extra[0], 40)}) at line {c.lineno}')
+  # inside wrappers the seed may be a parameter with a default: resolve to the default
+  resolved = set()
+  for s_ in seeds:
+    r = s_
+    for w in wrappers.values():
+      names = [a.arg for a in w.args.args]
+      defaults = w.args.defaults
+      for a, d in zip(names[len(names) - len(defaults):], defaults):
+        if a == s_:
+          r = unparse(d, 0)
+    resolved.add(r)
+  if n_sites < 2:
+    raise AnalysisError(f'VectorizedOptimizer.__call__: only {n_sites} score-function call sites found')
+  ctx.check(len(resolved) == 1 and '<none>' not in resolved and not problems, 'R7', 'every score evaluation uses the same key', call.node,
+            f'{n_sites} call sites, key `{next(iter(resolved)) if resolved else "?"}`',
+            f'the score function is evaluated under different keys ({sorted(resolved)}; per-call overrides: {problems}): for a key-dependent '
+            '(Monte-Carlo) acquisition the reward stored for a candidate is not the score reported for it at the end, and prior points are '
+            'compared under another key than new ones', construct='score-keys', func=call.qualname)
+
+
+# ----------------------------------------------------------------------- R6
+def r6_pool_pairing(ctx) -> None:
+  """The eagle pool keeps features and their rewards in lock step: wherever a pool slot's features are replaced
+  (`f.at[IDX].set(..)` over the feature tree) the slot's reward is replaced with the same index in the same result, and
+  a loop that does so carries *both* (a reward read from the enclosing scope is the stale initial array)."""
+  mi = ctx.index.module_of_file(ES)
+  n = 0
+  for fn in [x for x in ast.walk(mi.tree) if isinstance(x, (ast.FunctionDef, ast.Lambda))]:
+    body_nodes = list(ast.walk(fn))
+    fsets = [c for c in body_nodes if isinstance(c, ast.Call) and isinstance(c.func, ast.Attribute) and c.func.attr == 'set'
+             and isinstance(c.func.value, ast.Subscript) and isinstance(c.func.value.value, ast.Attribute) and c.func.value.value.attr == 'at']
+    # only the innermost function/lambda that directly contains the update
+    fsets = [c for c in fsets if next((a for a in ancestors(c) if isinstance(a, (ast.FunctionDef, ast.Lambda))), None) is fn]
+    if not fsets:
+      continue
+    for c in fsets:
+      base = c.func.value.value.value  # X in X.at[IDX].set
+      idx = unparse(c.func.value.slice, 0)
+      # a feature-tree update is the body of a tree_map lambda; a reward update is a direct `rewards.at[..]`
+      in_tree_map = isinstance(fn, ast.Lambda) and isinstance(getattr(fn, '_vz_parent', None), ast.Call) \
+          and (dotted(fn._vz_parent.func) or '').endswith('tree_map')
+      if not in_tree_map:
+        continue
+      n += 1
+      tm = fn._vz_parent
+      # the enclosing expression that forms the result of the branch (tuple / lambda body / return)
+      holder = next((a for a in ancestors(tm) if isinstance(a, (ast.Tuple, ast.Lambda, ast.Return, ast.Assign))), None)
+      scope = holder if holder is not None else tm
+      if isinstance(holder, ast.Lambda):
+        scope = holder.body
+      partner = [x for x in ast.walk(scope) if isinstance(x, ast.Call) and isinstance(x.func, ast.Attribute) and x.func.attr == 'set'
+                 and isinstance(x.func.value, ast.Subscript) and isinstance(x.func.value.value, ast.Attribute) and x.func.value.value.attr == 'at'
+                 and 'reward' in unparse(x.func.value.value.value, 0) and unparse(x.func.value.slice, 0) == idx]
+      ctx.check(bool(partner), 'R6', f'pool slot update at line {c.lineno}: features and reward replaced together', c,
+                f'rewards.at[{idx}].set(..) in the same result',
+                f'the features of pool slot `{idx}` are replaced but its reward is not: later comparisons use the old (lower) reward of '
+                'the slot, so a better prior point that was just placed there can be evicted again and the pool no longer holds the '
+                'best prior points', construct='pool-pairing', func=mi.name)
+  if n == 0:
+    raise AnalysisError('eagle strategy: no feature-tree slot update (`tree_map(lambda f, ..: f.at[i].set(..))`) found')
 
 
 # ----------------------------------------------------------------------- R5
